@@ -229,6 +229,25 @@ def clusterLoop (B : Backend) (ropts : Opts) : Nat → List Uuid → Nat → CRe
       else if todo'.length = todo.length then ⟨[items], [(req, .page items)], .failed 502⟩
       else (clusterLoop B ropts fuel todo' (idx + 1)).push req (.page items) items
 
+/-- The loop exactly as written in Go, with the separate `batch` variable: `batch` starts as all of
+`todo` and is rebuilt from `todo` only `if len(batch) > len(todo)` (list.go:242-248).
+`Proofs/C20_Ext.loopGo_eq` shows that the batch sent always equals `todo`, i.e. this is
+`clusterLoop`. -/
+def clusterLoopGo (B : Backend) (ropts : Opts) : Nat → List Uuid → List Uuid → Nat → CRes
+  | 0, _, todo, _ => if todo = [] then ⟨[], [], .done⟩ else ⟨[], [], .starved⟩
+  | fuel + 1, batch, todo, idx =>
+    if todo = [] then ⟨[], [], .done⟩ else
+    let batch' := if batch.length > todo.length then todo else batch
+    let req := batchReq ropts batch'
+    match B req idx with
+    | .error s => ⟨[], [(req, .error s)], .failed 502⟩
+    | .page items =>
+      let todo' := remaining todo items
+      if items = [] then ⟨[[]], [(req, .page [])], .done⟩
+      else if accepts todo (pageUuids items) = false then ⟨[items], [(req, .page items)], .failed 502⟩
+      else if todo'.length = todo.length then ⟨[items], [(req, .page items)], .failed 502⟩
+      else (clusterLoopGo B ropts fuel batch' todo' (idx + 1)).push req (.page items) items
+
 /-- backend selection of the list path (list.go:227-233) -/
 def backendFor (cfg : Cfg) (c : ClusterId) : Option Backend :=
   if c = cfg.localId then some cfg.localB else cfg.remotes c
@@ -281,6 +300,44 @@ def run (cfg : Cfg) (o : Opts) : Run :=
     let log := rs.map (fun r => (r.1, r.2.log))
     if errs = [] then ⟨.ok (mergePages (rs.flatMap (fun r => r.2.pages))), log⟩
     else ⟨.err errs, log⟩
+
+/-! ### context cancellation after the first error (list.go:215-216, 279-287)
+
+The collector calls `cancel()` when it receives the first non-nil error. A backend that honours its
+context (the RPC client does) then fails every later call of the other goroutines; those goroutines
+report 502 — but after the first error, so their reports are never the one returned. `cut c = some k`
+says: cluster `c`'s calls with index ≥ k see a cancelled context. -/
+
+/-- a backend whose calls from index `k` on fail because the context was cancelled -/
+def cutBackend (B : Backend) : Option Nat → Backend
+  | none => B
+  | some k => fun req idx => if k ≤ idx then .error 0 else B req idx
+
+def runClusterCut (cfg : Cfg) (o : Opts) (c : ClusterId) (todo : List Uuid) (cut : Option Nat) : CRes :=
+  match backendFor cfg c with
+  | none => ⟨[], [], .failed 404⟩
+  | some B => clusterLoop (cutBackend B cut) (remoteOpts cfg.localId o) todo.length todo 0
+
+/-- the cancellation reaches cluster `g` before its loop has ended by itself -/
+def affected (cfg : Cfg) (o : Opts) (cut : ClusterId → Option Nat) (g : ClusterId × List Uuid) : Bool :=
+  match cut g.1 with
+  | none => false
+  | some k => decide (k < (runCluster cfg o g.1 g.2).log.length)
+
+/-- The request under a cancellation schedule. The error returned by Go is the first one received,
+hence the error of a cluster that failed by itself (not `affected`): `Outcome.err` lists those. An
+empty list with failing clusters means the schedule is impossible (cancellation without a cause). -/
+def runCancel (cfg : Cfg) (o : Opts) (cut : ClusterId → Option Nat) : Run :=
+  match plan cfg.localId cfg.maxItems o with
+  | .split gs =>
+    let rs := gs.map (fun g => (g.1, runClusterCut cfg o g.1 g.2 (cut g.1)))
+    let log := rs.map (fun r => (r.1, r.2.log))
+    if rs.filterMap (fun r => r.2.stop.status?) = [] then
+      ⟨.ok (mergePages (rs.flatMap (fun r => r.2.pages))), log⟩
+    else
+      ⟨.err ((gs.filter (fun g => !affected cfg o cut g)).filterMap
+        (fun g => (runCluster cfg o g.1 g.2).stop.status?)), log⟩
+  | _ => run cfg o
 
 /-! ### conn.go chooseBackend (single-object requests), for comparison with `backendFor` -/
 
